@@ -175,6 +175,8 @@ def run(ctx):
         return out
 
     stop_rule(ctx, prog, allm)
+    from props.c03 import preinsert_rule
+    preinsert_rule(ctx, prog, rid="C14.PREINSERT")   # a refused insertion must leave no id behind
     seen_pairs = set()
     for e in sorted(entries, key=lambda b: b.id):
         ctx.functions_analysed.add(e.id)
